@@ -82,7 +82,7 @@ GRIDS = [("quadratic", 30, 3.0), ("geometric", 30, 0), ("irregular", 30, 3.0)]
 
 def cases_S(tier, seed):
     thorough = tier == "thorough"
-    nxs = [3, 4, 5, 8, 16, 50, 150, 400] if thorough else [3, 4, 8, 50, 150]
+    nxs = [3, 4, 5, 8, 16, 50, 150, 201, 400] if thorough else [3, 4, 8, 50, 150, 400]
     tabs = ["T_ship_gas", "A_kink", "S_zdip"] + (["T_hay", "A_kink1e3", "A_fall"] if thorough else [])
     pairs = [(100.0, 8000.0), (7000.0, 8000.0), (7990.0, 8000.0)]
     if seed:
@@ -93,7 +93,7 @@ def cases_S(tier, seed):
         out.append({"part": "S", "cls": "ideal", "table": None, "p_f": 1000.0, "p_i": 8000.0, "nx": nx,
                     "grid": g, "n": n, "T": T, "sched": "scalar", "seed": seed})
     for tab, (p_f, p_i), nx, (g, n, T), sc in itertools.product(tabs, pairs, nxs, GRIDS,
-                                                                  ["scalar", "stepdown"]):
+                                                                  ["scalar", "stepdown", "downup"]):
         lo, hi = tables.table_range(tab)
         if not lo <= p_f < p_i <= hi:
             continue
@@ -123,7 +123,7 @@ def evaluate_S(case):
 # ---- E: deviation-bounded solver answers ---------------------------------------------------
 def cases_E(tier, seed):
     out = []
-    for cls, tab, nx in itertools.product(["ideal", "single"], ["T_ship_gas", "A_kink"], [5, 20]):
+    for cls, tab, nx in itertools.product(["ideal", "single"], ["T_ship_gas", "A_kink"], [5, 20, 250]):
         if cls == "ideal" and tab != "T_ship_gas":
             continue
         out.append({"part": "E", "cls": cls, "table": tab if cls == "single" else None, "p_f": 7000.0,
